@@ -60,12 +60,12 @@ BOUNDED = {"module": "harness.c11"}
 
 MUTANTS = [
     {"name": "anchors-swapped", "target": "mokapot.dataset.calibrate_scores",
-     "find": "    return (scores - target_score) / (target_score - decoy_score)\n\n\n@typechecked\ndef update_labels",
-     "replace": "    return (scores - decoy_score) / (target_score - decoy_score)\n\n\n@typechecked\ndef update_labels"},
+     "find": "    return (scores - target_score) / (target_score - decoy_score)",
+     "replace": "    return (scores - decoy_score) / (target_score - decoy_score)"},
     {"name": "max-instead-of-min", "target": "mokapot.dataset.calibrate_scores",
-     "find": "    target_score = np.min(scores[pos])\n    decoy_score = np.median(scores[labels == -1])\n\n    return (scores - target_score) / (target_score - decoy_score)\n\n\n@typechecked",
-     "replace": "    target_score = np.max(scores[pos])\n    decoy_score = np.median(scores[labels == -1])\n\n    return (scores - target_score) / (target_score - decoy_score)\n\n\n@typechecked"},
+     "find": "    target_score = np.min(scores[pos])", "replace": "    target_score = np.max(scores[pos])"},
     {"name": "median-of-targets", "target": "mokapot.dataset.calibrate_scores",
-     "find": "    decoy_score = np.median(scores[labels == -1])\n\n    return (scores - target_score) / (target_score - decoy_score)\n\n\n@typechecked",
-     "replace": "    decoy_score = np.median(scores[labels == 0])\n\n    return (scores - target_score) / (target_score - decoy_score)\n\n\n@typechecked"},
+     "find": "    decoy_score = np.median(scores[labels == -1])", "replace": "    decoy_score = np.median(scores[labels == 0])"},
+    {"name": "no-error-when-nothing-accepted", "target": "mokapot.dataset.calibrate_scores",
+     "find": "    if not pos.sum():", "replace": "    if False:"},
 ]
